@@ -34,6 +34,9 @@ def _exc_name(r):
     return ast.unparse(e).split(".")[-1]
 
 
+_LC_TERMS = {}       # key of a loop's iteration base -> the term (loop positions are compared as values, see _same_items)
+
+
 def _target_shape(t):
     """the shape of a loop target (its names are bound variables: every use is a term over the element of the iterable)"""
     if isinstance(t, (ast.Tuple, ast.List)):
@@ -60,7 +63,9 @@ def summary(v):
         out = []
         for p, f in v.cfg.enclosing(st):
             if isinstance(p, ast.For):
-                out.append(v.show(v.term(p.iter, at=p))[:200])
+                t_ = v.ev._loop_base(v.term(p.iter, at=p))
+                _LC_TERMS[t_.key()] = t_
+                out.append(("for", t_.key()))
             elif isinstance(p, ast.While):
                 out.append("while")
             elif isinstance(p, ast.Try):
@@ -111,6 +116,11 @@ def summary(v):
                         # it is an effect, never the same as `x = x op y` (a freshly built list / number is not shared)
                         effects.append(("aug-name:" + type(st.op).__name__, t.id if False else "", cond,
                                         [v.ev._name_before(t.id, v.cfg.node(st), None), v.term(st.value, at=st)], lc))
+                    elif isinstance(st, ast.Assign) and len(flat) == 1 and isinstance(st.value, ast.Call) and \
+                            any(isinstance(x, str) and x.endswith(":body") for x in lc):
+                        # inside a try body a call is also made for the exception it may raise: `x = f(a)` and a bare
+                        # `f(a)` (its value built again later) are the same evaluation at this point
+                        effects.append(("expr", "", cond, [v.term(st.value, at=st)], lc))
                     continue
                 if isinstance(t, ast.Subscript) and isinstance(t.value, ast.Name) and t.value.id in ev._local_names \
                         and t.value.id not in ev._params:
@@ -142,7 +152,7 @@ def summary(v):
                 continue
             effects.append(item)
         elif isinstance(st, ast.For):
-            effects.append(("for", _target_shape(st.target), cond, [v.term(st.iter, at=st)], lc))
+            effects.append(("for", "", cond, [v.ev._loop_base(v.term(st.iter, at=st))], lc))
             if st.orelse:
                 raise NotSummarisable("for-else")
         elif isinstance(st, ast.While):
@@ -171,7 +181,15 @@ def summary(v):
     for pos, st, name, item in local_stores:
         after = ev._t(ast.Name(id=name, ctx=ast.Load()), None, None) if False else None
         stored = v.ctx.mk(("store",), (item[3][0], item[3][1], item[3][2])) if name is not None else item[3][0]
-        if not (stored.atom_ids() & used):
+        ids = set(stored.atom_ids())
+        if name is not None:
+            try:
+                ids |= set(ev._def_term(name, v.cfg.node(st), None).atom_ids())     # the container as it is after the store
+            except AnalysisError:
+                pass
+        if name is not None and _fresh_container(v.ctx, item[3][0]):
+            continue        # a container built right here: what is stored into it is part of its value wherever it is used
+        if not (ids & used):
             extra.append((pos, item))
     for pos, item in sorted(extra, key=lambda x: -x[0]):
         effects.insert(pos, item)
@@ -184,9 +202,45 @@ def summary(v):
                 any(isinstance(n, (ast.Call, ast.Await)) for n in ast.walk(st.value)):
             t = v.term(st.value, at=st)
             roots = t.atom_ids()
+            ht = v.ctx.head_of(t) or ("",)
+            if ht[0] in ("seqcomp", "dictcomp", "setcomp", "list", "tuple", "dict", "set") or \
+                    (ht[0] == "call" and ht[1] in _FRESH_CALLS):
+                continue        # a container built in place is a value, not a call made for its effect
+            if ht[0] == "gphi":
+                # `x = f() if c else y`: the calls are the alternatives
+                roots = set()
+                ar_ = v.ctx.args_of(t)
+                for i_ in range(1, len(ar_), 2):
+                    hv = v.ctx.head_of(ar_[i_]) or ("",)
+                    if hv[0] in ("call", "new"):
+                        roots |= set(ar_[i_].atom_ids())
+                if roots and roots <= used:
+                    continue
             if roots and not (roots & used):
                 dead.append(("unused-call", "", full_term(v, st), [t], loop_ctx(st)))
     return exits, effects + dead
+
+
+_FRESH_CALLS = {"list", "dict", "set", "sorted", "tuple", "np.zeros", "np.ones", "np.empty", "np.full", "np.zeros_like",
+                "np.ones_like", "np.empty_like", "np.full_like", "np.array", "np.copy", ".copy", "collections.OrderedDict"}
+
+
+def _fresh_container(ctx, t, depth=0):
+    """t is a container that was built in this function (a literal, a comprehension, list(...), np.zeros(...)), possibly with
+    elements stored into it since"""
+    h = ctx.head_of(t)
+    if not h or depth > 20:
+        return False
+    if h[0] in ("list", "dict", "set", "seqcomp", "dictcomp", "setcomp", "concat", "repeat"):
+        return True
+    if h[0] in ("store", "mut"):
+        return _fresh_container(ctx, ctx.args_of(t)[0], depth + 1)
+    if h[0] == "call" and h[1] in _FRESH_CALLS:
+        return True
+    if h[0] == "gphi":
+        ar = ctx.args_of(t)
+        return all(_fresh_container(ctx, ar[i + 1], depth + 1) for i in range(0, len(ar), 2))
+    return False
 
 
 def _flatten(t):
@@ -277,8 +331,9 @@ def _name_carried(ctx, exits, effects, tag):
     return ren(exits), ren(effects)
 
 
-def _same_terms(va, ta, tb):
-    """equal as values: normal-form equality, else equality of every pair of gated alternatives that can occur together"""
+def _same_terms(va, ta, tb, given=None):
+    """equal as values: normal-form equality, else equality of every pair of gated alternatives that can occur together
+    (`given`: a condition that holds wherever the two values are used - the reach condition of the statement)"""
     from .lib import cond_implies
     ctx = va.ctx
     if ctx.eq(ta, tb):
@@ -286,6 +341,9 @@ def _same_terms(va, ta, tb):
     A, B = alternatives(va, ta), alternatives(va, tb)
     if A is None or B is None or (len(A) == 1 and len(B) == 1):
         return False
+    if given is not None:
+        A = [(va.ev._bool("and", [given, g]), x) for g, x in A]
+        B = [(va.ev._bool("and", [given, g]), x) for g, x in B]
     false = ctx.mk(("const", False))
     for ga, xa in A:
         for gb, xb in B:
@@ -326,11 +384,17 @@ def _same_cond(va, ca, cb):
 def _same_items(va, a, b):
     ka, na, ca, ta, la = a
     kb, nb, cb, tb, lb = b
-    if ka != kb or na != nb or la != lb or len(ta) != len(tb):
+    if ka != kb or na != nb or len(la) != len(lb) or len(ta) != len(tb):
         return False
     if not _same_cond(va, ca, cb):
         return False
-    return all(_same_terms(va, x, y) for x, y in zip(ta, tb))
+    for x, y in zip(la, lb):
+        if x == y:
+            continue
+        if not (isinstance(x, tuple) and isinstance(y, tuple) and x[0] == y[0] == "for" and
+                _same_terms(va, _LC_TERMS[x[1]], _LC_TERMS[y[1]], given=ca)):
+            return False
+    return all(_same_terms(va, x, y, given=ca) for x, y in zip(ta, tb))
 
 
 BUDGET_S = 4.0      # per function: beyond it the current form is simply "not proven equivalent"
